@@ -157,14 +157,207 @@ fn jit_random_case(rng: &mut Rng) -> History {
     jit_seq_case(&table, &seq, ncpu, rng.chance(1, 3))
 }
 
+// ---------------------------------------------------------------------------------------------
+// marker stacks: samples of a second, "other" event (`probe:deep_call`) become markers with a stack
+// (`handle_other_event_sample`); the depth limiter applies to them exactly as to sample stacks
+
+/// a user-mode call chain of `depth` pairwise distinct return addresses from `base` (callee first)
+fn chain_at(base: u64, depth: u64, salt: u64) -> Vec<u64> {
+    let mut chain = vec![CTX_USER];
+    for i in 0..depth {
+        chain.push(base + 16 * i + 8 + salt);
+    }
+    chain
+}
+
+/// how the thread / process of the other-event samples is first seen
+#[derive(Clone, Copy, PartialEq)]
+enum Seen {
+    /// COMM + main-event sample of the thread come first
+    Known,
+    /// the thread (tid 101 of the known process 100) is first seen through the other event
+    ThreadViaOev,
+    /// the whole process (pid 300) is seen through the other event only
+    ProcViaOev,
+}
+
+/// One other-event sample of `depth` frames, mixed with main-event samples of the same thread (one before at a
+/// different deep depth unless the thread is first seen through the other event, one after at `depth + 1`, and a
+/// shallow one), optionally a second other-event sample at the same timestamp as a main-event sample.
+fn oev_case(depth: u64, ncpu: u32, seen: Seen, mapped: bool, kernel_frames: u64, twin: bool) -> History {
+    let t0 = 5_000_000u64;
+    let (pid, tid) = match seen {
+        Seen::Known => (100u32, 100u32),
+        Seen::ThreadViaOev => (100, 101),
+        Seen::ProcViaOev => (300, 301),
+    };
+    let mut recs = vec![Rec::Comm { pid: 100, tid: 100, name: "deep".to_string(), exec: false, t: t0 - 10 }];
+    if mapped {
+        recs.push(Rec::Mmap2 { pid, tid: pid, addr: 0x20000, len: 0x3000, pgoff: 0x1000, exec: true, path: "/nonexistent-verif/bin/probe".to_string(), t: t0 - 5 });
+    }
+    let mut t = t0;
+    recs.push(Rec::Sample { pid: 100, tid: 100, t, kernel: false, period: 1_000_000, ip: 0x10008, chain: chain_at(0x10000, 3, 0) });
+    t += 1000;
+    if seen == Seen::Known {
+        recs.push(Rec::Sample { pid, tid, t, kernel: false, period: 1_000_000, ip: 0x10008, chain: chain_at(0x10000, (depth + 197) % 1200, 1) });
+        t += 1000;
+    }
+    // the other-event sample: its own address range, so that no frame is shared with the samples by accident
+    let mut chain = Vec::new();
+    if kernel_frames > 0 {
+        chain.push(CTX_KERNEL);
+        for i in 0..kernel_frames {
+            chain.push(0xffff_ffff_8100_0000 + 32 * i);
+        }
+    }
+    chain.extend(chain_at(0x20000, depth - kernel_frames.min(depth), 0));
+    let ip = if kernel_frames > 0 { 0xffff_ffff_8100_0000 } else { 0x20008 };
+    recs.push(Rec::Other { pid, tid, t, kernel: kernel_frames > 0, ip, chain: chain.clone() });
+    if twin {
+        // a main-event sample of the same thread at the same timestamp (no dedup across events), then a second
+        // other-event sample at that timestamp again with another stack
+        recs.push(Rec::Sample { pid, tid, t, kernel: false, period: 1_000_000, ip: 0x10008, chain: chain_at(0x10000, depth, 0) });
+        recs.push(Rec::Other { pid, tid, t, kernel: false, ip: 0x30008, chain: chain_at(0x30000, depth + 2, 0) });
+    }
+    t += 1000;
+    if seen != Seen::ProcViaOev {
+        recs.push(Rec::Sample { pid, tid, t, kernel: false, period: 1_000_000, ip: 0x10008, chain: chain_at(0x10000, depth + 1, 0) });
+        t += 1000;
+        recs.push(Rec::Sample { pid, tid, t, kernel: false, period: 1_000_000, ip: 0x10008, chain: chain_at(0x10000, 4, 0) });
+        t += 1000;
+    }
+    // a shallow other-event sample after the deep one (the marker before it must keep its own stack)
+    recs.push(Rec::Other { pid, tid, t, kernel: false, ip: 0x20008, chain: chain_at(0x20000, 5, 1) });
+    History { reuse: false, fold: false, ref_time: t0, recs, ncpu, ..Default::default() }
+}
+
+/// `jit_seq_case` with the deep stack recorded by the other event as well (JS label frames in a marker stack)
+fn oev_jit_case(table: &[&str], seq: &[Option<usize>], ncpu: u32) -> History {
+    let mut h = jit_seq_case(table, seq, ncpu, true);
+    let Some(Rec::Sample { pid, tid, t, ip, chain, .. }) = h.recs.iter().find(|r| matches!(r, Rec::Sample { .. })).cloned() else {
+        return h;
+    };
+    let pos = h.recs.iter().position(|r| matches!(r, Rec::Sample { .. })).unwrap();
+    h.recs.insert(pos + 1, Rec::Other { pid, tid, t: t + 500, kernel: false, ip, chain: chain.clone() });
+    h.recs.insert(pos, Rec::Other { pid, tid: tid + 7, t: t - 1, kernel: false, ip, chain });
+    h
+}
+
+fn oev_fixed_cases(tier: Tier) -> Vec<Case> {
+    let mut v = Vec::new();
+    let mut push = |name: String, h: History| v.push(Case { name, ops: h.to_ops() });
+    let band: u64 = if tier == Tier::Thorough { 4 } else { 2 };
+    let mut depths: Vec<u64> = vec![1, 2, 199, 200, 201, 300, 400, 498];
+    for b in [500u64, 700, 900, 1100] {
+        depths.extend(b - band..=b + band);
+    }
+    depths.extend([600, 899, 1300, 2000, 8000]);
+    if tier == Tier::Thorough {
+        depths.extend((503..=1320).step_by(7));
+    }
+    depths.sort();
+    depths.dedup();
+    for (k, d) in depths.iter().enumerate() {
+        let seen = match k % 3 {
+            0 => Seen::Known,
+            1 => Seen::ThreadViaOev,
+            _ => Seen::ProcViaOev,
+        };
+        // every depth without and with `--per-cpu-threads`
+        push(format!("oev{d}"), oev_case(*d, 0, seen, d % 2 == 0, 0, k % 4 == 0));
+        push(format!("oev{d}-percpu"), oev_case(*d, 2, if seen == Seen::ProcViaOev { Seen::Known } else { Seen::ThreadViaOev }, d % 2 == 1, 0, k % 4 == 1));
+    }
+    // kernel frames in front (the marker stack keeps them: `convert`, not `convert_no_kernel`)
+    for d in [499u64, 500, 501, 700] {
+        push(format!("oev{d}-kernel"), oev_case(d, 0, Seen::Known, false, 3, false));
+    }
+    // JS label frames inside a marker stack (known finding C14-js-label-depth applies to these too)
+    for d in [249usize, 250, 300, 499, 500, 600] {
+        let seq: Vec<Option<usize>> = (0..d).map(|_| Some(0)).collect();
+        push(format!("oev-js{d}"), oev_jit_case(&["py::f"], &seq, 0));
+    }
+    for (k, d) in [(198usize, 600usize), (199, 600), (200, 700), (201, 700)] {
+        let seq: Vec<Option<usize>> = (0..d).map(|i| if i < k { None } else { Some(0) }).collect();
+        push(format!("oev-jsafter{k}-{d}"), oev_jit_case(&["py::f"], &seq, if k % 2 == 0 { 2 } else { 0 }));
+    }
+    for d in [520usize, 700] {
+        let pat = [0usize, 1, 1, 2, 2, 3, 2, 4, 2, 5, 0, 5, 2, 0, 3, 2];
+        let seq: Vec<Option<usize>> = (0..d).map(|i| Some(pat[i % pat.len()])).collect();
+        push(format!("oev-jshandover{d}"), oev_jit_case(&HANDOVER, &seq, 0));
+    }
+    // the other-event sample of the idle thread (tid 0 is not special for markers); only without per-CPU threads
+    {
+        let t0 = 5_000_000u64;
+        let recs = vec![
+            Rec::Comm { pid: 100, tid: 100, name: "deep".to_string(), exec: false, t: t0 - 10 },
+            Rec::Sample { pid: 100, tid: 100, t: t0, kernel: false, period: 1_000_000, ip: 0x10008, chain: chain_at(0x10000, 3, 0) },
+            Rec::Other { pid: 100, tid: 0, t: t0 + 100, kernel: false, ip: 0x20008, chain: chain_at(0x20000, 650, 0) },
+            Rec::Sample { pid: 100, tid: 0, t: t0 + 200, kernel: false, period: 1_000_000, ip: 0x10008, chain: chain_at(0x10000, 3, 0) },
+        ];
+        push("oev-tid0".to_string(), History { ref_time: t0, recs, ..Default::default() });
+    }
+    // several marker stacks with different elision counts on one thread, EXIT / EXEC in between (parked buffer)
+    {
+        let t0 = 5_000_000u64;
+        let mut recs = vec![Rec::Comm { pid: 100, tid: 100, name: "deep".to_string(), exec: false, t: t0 - 10 }];
+        let mut t = t0;
+        for (k, d) in [520u64, 750, 499, 900, 1300, 30].iter().enumerate() {
+            recs.push(Rec::Other { pid: 100, tid: 100 + (k as u32 % 2), t, kernel: false, ip: 0x20008, chain: chain_at(0x20000, *d, k as u64 % 3) });
+            t += 500;
+            recs.push(Rec::Sample { pid: 100, tid: 100 + (k as u32 % 2), t, kernel: false, period: 1_000_000, ip: 0x10008, chain: chain_at(0x10000, *d + 100, 0) });
+            t += 500;
+            if k == 2 {
+                recs.push(Rec::Comm { pid: 100, tid: 100, name: "execd".to_string(), exec: true, t });
+                t += 500;
+            }
+        }
+        recs.push(Rec::Exit { pid: 100, tid: 100, t });
+        push("oev-multi".to_string(), History { ref_time: t0, recs, ..Default::default() });
+    }
+    v
+}
+
+/// random: an existing kind of case with other-event samples sprinkled in
+fn oev_random_case(rng: &mut Rng) -> History {
+    if rng.chance(1, 4) {
+        let mut h = jit_random_case(rng);
+        let samples: Vec<(usize, Rec)> = h.recs.iter().cloned().enumerate().filter(|(_, r)| matches!(r, Rec::Sample { .. })).collect();
+        if let Some((pos, Rec::Sample { pid, tid, t, ip, chain, .. })) = samples.first().cloned() {
+            let ntid = if rng.chance(1, 2) { tid } else { tid + 1 + rng.below(3) as u32 };
+            h.recs.insert(pos + 1, Rec::Other { pid, tid: ntid, t: t + 1 + rng.below(900), kernel: false, ip, chain });
+        }
+        return h;
+    }
+    let depth = match rng.below(4) {
+        0 => rng.range(1, 520),
+        1 => 500 + 200 * rng.below(5) + rng.below(7) - 3,
+        2 => rng.range(480, 1400),
+        _ => rng.range(1400, 8000),
+    };
+    let seen = *rng.pick(&[Seen::Known, Seen::ThreadViaOev, Seen::ProcViaOev]);
+    let ncpu = if rng.chance(1, 3) { rng.range(1, 3) as u32 } else { 0 };
+    let kernel = if rng.chance(1, 5) { rng.range(1, 4) } else { 0 };
+    let mut h = oev_case(depth, ncpu, seen, rng.chance(1, 2), kernel, rng.chance(1, 3));
+    h.fold = rng.chance(1, 4);
+    h
+}
+
+fn old_case_count(tier: Tier) -> u64 {
+    match tier {
+        Tier::Quick => 100,
+        Tier::Thorough => 1500,
+    }
+}
+
 impl Prop for C14 {
     fn id(&self) -> &'static str {
         "C14"
     }
     fn case_count(&self, tier: Tier) -> u64 {
-        match tier {
-            Tier::Quick => 100,
-            Tier::Thorough => 1500,
+        // the cases behind the older ones are the other-event families (the older ones keep their seeds)
+        old_case_count(tier) + match tier {
+            Tier::Quick => 40,
+            Tier::Thorough => 500,
         }
     }
     fn fixed_cases(&self, tier: Tier) -> Vec<Case> {
@@ -220,9 +413,13 @@ impl Prop for C14 {
         for (k, (a, b)) in multis.iter().enumerate() {
             v.push(Case { name: format!("multi{k}"), ops: multi_case(a, b).to_ops() });
         }
+        v.extend(oev_fixed_cases(tier));
         v
     }
-    fn generate(&self, rng: &mut Rng, _tier: Tier, _index: u64) -> Vec<String> {
+    fn generate(&self, rng: &mut Rng, tier: Tier, index: u64) -> Vec<String> {
+        if index >= old_case_count(tier) {
+            return oev_random_case(rng).to_ops();
+        }
         if rng.chance(2, 5) {
             return jit_random_case(rng).to_ops();
         }
@@ -259,6 +456,15 @@ impl Prop for C14 {
         let tag = format!("c{:016x}", fnv1a(ops));
         let out = import_and_render(&h, Proj::C02, &dir, &tag, stats);
         for l in &out {
+            if l.starts_with("m ") {
+                stats.bump("marker_stacks");
+                if l.contains(" e:") {
+                    stats.bump("marker_stacks_elided");
+                }
+                if l.contains(" j:") {
+                    stats.bump("marker_stacks_with_js_labels");
+                }
+            }
             if l.starts_with("s ") {
                 if l.contains(" j:") {
                     stats.bump("stacks_with_js_labels");
@@ -279,7 +485,7 @@ impl Prop for C14 {
         out
     }
     fn nontrivial(&self, _ops: &[String], out: &[String]) -> bool {
-        out.iter().any(|l| l.starts_with("s ") && l.split_whitespace().count() > 100)
+        out.iter().any(|l| (l.starts_with("s ") || l.starts_with("m ")) && l.split_whitespace().count() > 100)
     }
 }
 
